@@ -591,6 +591,213 @@ pub mod std {
                 crate::rt::wake_one(r);
             }
         }
+        /// Result of a timed wait (std's has no public constructor, so the facade has its own).
+        #[derive(Debug, PartialEq, Eq, Copy, Clone)]
+        pub struct WaitTimeoutResult(bool);
+        impl WaitTimeoutResult {
+            pub fn timed_out(&self) -> bool {
+                self.0
+            }
+        }
+        impl Condvar {
+            pub fn wait_timeout<'a, T>(
+                &self,
+                guard: MutexGuard<'a, T>,
+                _dur: ::std::time::Duration,
+            ) -> LockResult<(MutexGuard<'a, T>, WaitTimeoutResult)> {
+                let m = guard.m;
+                let r = res_of(&self.res);
+                drop(guard);
+                let to = crate::rt::block_timed(r, &format!("condvar.wait_timeout c{r}"));
+                match m.lock() {
+                    Ok(g) => Ok((g, WaitTimeoutResult(to))),
+                    Err(e) => Err(PoisonError::new((e.into_inner(), WaitTimeoutResult(to)))),
+                }
+            }
+            pub fn wait_timeout_while<'a, T, F: FnMut(&mut T) -> bool>(
+                &self,
+                mut guard: MutexGuard<'a, T>,
+                dur: ::std::time::Duration,
+                mut cond: F,
+            ) -> LockResult<(MutexGuard<'a, T>, WaitTimeoutResult)> {
+                loop {
+                    if !cond(&mut *guard) {
+                        return Ok((guard, WaitTimeoutResult(false)));
+                    }
+                    let (g, to) = match self.wait_timeout(guard, dur) {
+                        Ok(x) => x,
+                        Err(e) => e.into_inner(),
+                    };
+                    guard = g;
+                    if to.timed_out() {
+                        let still = cond(&mut *guard);
+                        return Ok((guard, WaitTimeoutResult(still)));
+                    }
+                }
+            }
+        }
+
+        /// One-time initialisation on the simulated scheduler: a second caller blocks (in the
+        /// simulator) while the first is inside the closure, instead of blocking for real on a
+        /// thread that is parked at a seam.
+        pub struct Once {
+            state: ::std::sync::atomic::AtomicU8, // 0 incomplete, 1 running, 2 complete, 3 poisoned
+            res: AtomicU64,
+        }
+        pub use ::std::sync::OnceState;
+        impl Once {
+            pub const fn new() -> Once {
+                Once { state: ::std::sync::atomic::AtomicU8::new(0), res: AtomicU64::new(0) }
+            }
+            pub fn is_completed(&self) -> bool {
+                self.state.load(O::SeqCst) == 2
+            }
+            pub fn call_once<F: FnOnce()>(&self, f: F) {
+                if self.state.load(O::SeqCst) == 2 {
+                    return;
+                }
+                let r = res_of(&self.res);
+                loop {
+                    crate::point(&format!("once{r}"), &format!("once.call once{r}"));
+                    match self.state.load(O::SeqCst) {
+                        2 => return,
+                        3 => panic!("Once instance has previously been poisoned"),
+                        0 => {
+                            self.state.store(1, O::SeqCst);
+                            struct Reset<'a>(&'a Once, u64);
+                            impl Drop for Reset<'_> {
+                                fn drop(&mut self) {
+                                    if self.0.state.load(O::SeqCst) == 1 {
+                                        self.0.state.store(3, O::SeqCst);
+                                    }
+                                    crate::rt::wake_all(self.1);
+                                }
+                            }
+                            let guard = Reset(self, r);
+                            f();
+                            self.state.store(2, O::SeqCst);
+                            drop(guard);
+                            return;
+                        }
+                        _ => crate::rt::block(r, &format!("once.blocked once{r}")),
+                    }
+                }
+            }
+        }
+        impl Default for Once {
+            fn default() -> Self {
+                Once::new()
+            }
+        }
+
+        pub struct OnceLock<T> {
+            once: Once,
+            cell: ::std::sync::OnceLock<T>,
+        }
+        impl<T> OnceLock<T> {
+            pub const fn new() -> Self {
+                OnceLock { once: Once::new(), cell: ::std::sync::OnceLock::new() }
+            }
+            pub fn get(&self) -> Option<&T> {
+                self.cell.get()
+            }
+            pub fn get_mut(&mut self) -> Option<&mut T> {
+                self.cell.get_mut()
+            }
+            pub fn set(&self, v: T) -> Result<(), T> {
+                let mut v = Some(v);
+                self.once.call_once(|| {
+                    let _ = self.cell.set(v.take().unwrap());
+                });
+                match v {
+                    None => Ok(()),
+                    Some(v) => Err(v),
+                }
+            }
+            pub fn get_or_init<F: FnOnce() -> T>(&self, f: F) -> &T {
+                if let Some(v) = self.cell.get() {
+                    return v;
+                }
+                self.once.call_once(|| {
+                    let _ = self.cell.set(f());
+                });
+                self.cell.get().expect("OnceLock initialised")
+            }
+            pub fn into_inner(self) -> Option<T> {
+                self.cell.into_inner()
+            }
+            pub fn take(&mut self) -> Option<T> {
+                self.once = Once::new();
+                self.cell.take()
+            }
+        }
+        impl<T> Default for OnceLock<T> {
+            fn default() -> Self {
+                OnceLock::new()
+            }
+        }
+
+        pub struct LazyLock<T, F = fn() -> T> {
+            cell: OnceLock<T>,
+            init: ::std::sync::Mutex<Option<F>>,
+        }
+        impl<T, F: FnOnce() -> T> LazyLock<T, F> {
+            pub const fn new(f: F) -> Self {
+                LazyLock { cell: OnceLock::new(), init: ::std::sync::Mutex::new(Some(f)) }
+            }
+            pub fn force(this: &Self) -> &T {
+                this.cell.get_or_init(|| {
+                    let f = this.init.lock().unwrap_or_else(|e| e.into_inner()).take().expect("LazyLock initialiser missing");
+                    f()
+                })
+            }
+        }
+        impl<T, F: FnOnce() -> T> ::std::ops::Deref for LazyLock<T, F> {
+            type Target = T;
+            fn deref(&self) -> &T {
+                LazyLock::force(self)
+            }
+        }
+
+        pub struct Barrier {
+            n: usize,
+            st: ::std::sync::Mutex<(usize, u64)>, // (arrived, generation)
+            res: AtomicU64,
+        }
+        pub struct BarrierWaitResult(bool);
+        impl BarrierWaitResult {
+            pub fn is_leader(&self) -> bool {
+                self.0
+            }
+        }
+        impl Barrier {
+            pub const fn new(n: usize) -> Barrier {
+                Barrier { n, st: ::std::sync::Mutex::new((0, 0)), res: AtomicU64::new(0) }
+            }
+            pub fn wait(&self) -> BarrierWaitResult {
+                let r = res_of(&self.res);
+                crate::point(&format!("bar{r}"), &format!("barrier.wait bar{r}"));
+                let gen = {
+                    let mut st = self.st.lock().unwrap_or_else(|e| e.into_inner());
+                    st.0 += 1;
+                    if st.0 >= self.n {
+                        st.0 = 0;
+                        st.1 += 1;
+                        drop(st);
+                        crate::rt::wake_all(r);
+                        return BarrierWaitResult(true);
+                    }
+                    st.1
+                };
+                loop {
+                    crate::rt::block(r, &format!("barrier.blocked bar{r}"));
+                    if self.st.lock().unwrap_or_else(|e| e.into_inner()).1 != gen {
+                        return BarrierWaitResult(false);
+                    }
+                }
+            }
+        }
+
         impl Default for Condvar {
             fn default() -> Self {
                 Condvar::new()
@@ -697,7 +904,7 @@ pub mod std {
         pub mod mpsc {
             use super::res_of;
             use ::std::collections::VecDeque;
-            pub use ::std::sync::mpsc::{RecvError, SendError, TryRecvError};
+            pub use ::std::sync::mpsc::{RecvError, RecvTimeoutError, SendError, TryRecvError, TrySendError};
             use ::std::sync::atomic::{AtomicBool, AtomicU64, AtomicUsize, Ordering as O};
             use ::std::sync::Arc;
 
@@ -706,6 +913,8 @@ pub mod std {
                 senders: AtomicUsize,
                 rx_alive: AtomicBool,
                 res: AtomicU64,
+                /// 0 = unbounded
+                cap: usize,
             }
             pub struct Sender<T>(Arc<Chan<T>>);
             pub struct Receiver<T>(Arc<Chan<T>>);
@@ -715,8 +924,73 @@ pub mod std {
                     senders: AtomicUsize::new(1),
                     rx_alive: AtomicBool::new(true),
                     res: AtomicU64::new(0),
+                    cap: 0,
                 });
                 (Sender(c.clone()), Receiver(c))
+            }
+            /// Bounded channel (a bound of 0 is approximated by a bound of 1).
+            pub struct SyncSender<T>(Arc<Chan<T>>);
+            pub fn sync_channel<T>(bound: usize) -> (SyncSender<T>, Receiver<T>) {
+                let c = Arc::new(Chan {
+                    q: ::std::sync::Mutex::new(VecDeque::new()),
+                    senders: AtomicUsize::new(1),
+                    rx_alive: AtomicBool::new(true),
+                    res: AtomicU64::new(0),
+                    cap: bound.max(1),
+                });
+                (SyncSender(c.clone()), Receiver(c))
+            }
+            impl<T> SyncSender<T> {
+                pub fn send(&self, t: T) -> Result<(), SendError<T>> {
+                    let r = res_of(&self.0.res);
+                    loop {
+                        crate::point(&format!("ch{r}"), &format!("chan.send ch{r}"));
+                        if !self.0.rx_alive.load(O::SeqCst) {
+                            return Err(SendError(t));
+                        }
+                        {
+                            let mut q = self.0.q.lock().unwrap_or_else(|e| e.into_inner());
+                            if q.len() < self.0.cap {
+                                q.push_back(t);
+                                drop(q);
+                                crate::rt::wake_all(r);
+                                return Ok(());
+                            }
+                        }
+                        crate::rt::block(r, &format!("chan.send.blocked ch{r}"));
+                    }
+                }
+                pub fn try_send(&self, t: T) -> Result<(), TrySendError<T>> {
+                    let r = res_of(&self.0.res);
+                    crate::point(&format!("ch{r}"), &format!("chan.try_send ch{r}"));
+                    if !self.0.rx_alive.load(O::SeqCst) {
+                        return Err(TrySendError::Disconnected(t));
+                    }
+                    let mut q = self.0.q.lock().unwrap_or_else(|e| e.into_inner());
+                    if q.len() < self.0.cap {
+                        q.push_back(t);
+                        drop(q);
+                        crate::rt::wake_all(r);
+                        Ok(())
+                    } else {
+                        Err(TrySendError::Full(t))
+                    }
+                }
+            }
+            impl<T> Clone for SyncSender<T> {
+                fn clone(&self) -> Self {
+                    self.0.senders.fetch_add(1, O::SeqCst);
+                    SyncSender(self.0.clone())
+                }
+            }
+            impl<T> Drop for SyncSender<T> {
+                fn drop(&mut self) {
+                    if self.0.senders.fetch_sub(1, O::SeqCst) == 1 {
+                        let r = res_of(&self.0.res);
+                        crate::note(&format!("chan.disconnected ch{r}"));
+                        crate::rt::wake_all(r);
+                    }
+                }
             }
             impl<T> Sender<T> {
                 pub fn send(&self, t: T) -> Result<(), SendError<T>> {
@@ -751,12 +1025,33 @@ pub mod std {
                     loop {
                         crate::point(&format!("ch{r}"), &format!("chan.recv ch{r}"));
                         if let Some(v) = self.0.q.lock().unwrap_or_else(|e| e.into_inner()).pop_front() {
+                            if self.0.cap > 0 {
+                                crate::rt::wake_all(r);
+                            }
                             return Ok(v);
                         }
                         if self.0.senders.load(O::SeqCst) == 0 {
                             return Err(RecvError);
                         }
                         crate::rt::block(r, &format!("chan.recv.blocked ch{r}"));
+                    }
+                }
+                pub fn recv_timeout(&self, _d: ::std::time::Duration) -> Result<T, RecvTimeoutError> {
+                    let r = res_of(&self.0.res);
+                    loop {
+                        crate::point(&format!("ch{r}"), &format!("chan.recv_timeout ch{r}"));
+                        if let Some(v) = self.0.q.lock().unwrap_or_else(|e| e.into_inner()).pop_front() {
+                            if self.0.cap > 0 {
+                                crate::rt::wake_all(r);
+                            }
+                            return Ok(v);
+                        }
+                        if self.0.senders.load(O::SeqCst) == 0 {
+                            return Err(RecvTimeoutError::Disconnected);
+                        }
+                        if crate::rt::block_timed(r, &format!("chan.recv_timeout.blocked ch{r}")) {
+                            return Err(RecvTimeoutError::Timeout);
+                        }
                     }
                 }
                 pub fn try_recv(&self) -> Result<T, TryRecvError> {
